@@ -30,6 +30,10 @@ def key_facts(key, convert_unicode=True):
         fold = fold2
     # the label pipeline drops every non-word character first: what leads the key is its first WORD character
     first = re.sub(r"\W", "", key)[:1]
+    if not convert_unicode:
+        # (what leads the label in that mode: the first character an identifier can hold)
+        import unicodedata
+        first = "".join(ch for ch in unicodedata.normalize("NFKC", key) if ("a" + ch).isidentifier())[:1]
     lead = "alpha" if first.isalpha() else "digit" if first.isdigit() else "under" if first == "_" else "other"
     return {"fold": fold, "letter": bool(re.search(r"[a-zA-Z]", t)), "lead": lead}
 
